@@ -29,8 +29,14 @@ pub fn run(ctx: &mut Ctx) {
             4..=6 => SizeClass::Medium,
             _ => SizeClass::Small,
         };
-        let l = gen::gen_logical(&mut rng, class, codec);
-        let p: u64 = match rng.below(9) {
+        let l = if i % 160 == 39 {
+            // more than 2^24 bytes of tile data behind a non-zero start position
+            ctx.count("archives_above_16_mib");
+            gen::gen_huge_tiles(&mut rng, codec, (1 << 24) + 4321)
+        } else {
+            gen::gen_logical(&mut rng, class, codec)
+        };
+        let p: u64 = match if i % 160 == 39 { 6 + rng.below(3) } else { rng.below(9) } {
             0 => 0,
             1 => 1,
             2 => 10,
